@@ -2,10 +2,10 @@
 package c01
 
 import (
-	"os"
 	"bytes"
 	"errors"
 	"fmt"
+	"os"
 	"sort"
 	"strings"
 	"testing"
@@ -70,7 +70,8 @@ func TestC01Determinism(t *testing.T) {
 		}
 		var cfgs []chain.ReplicaConfig
 		for i := 0; i < nrep; i++ {
-			cfg := chain.ReplicaConfig{Name: fmt.Sprintf("R%d", i), Backend: chain.Backends[i%2], MinGasPrice: uint64(rapid.SampledFrom([]int{0, 0, 1, 1000}).Draw(t, "minGasPrice"))}
+			cfg := chain.ReplicaConfig{Name: fmt.Sprintf("R%d", i), Backend: chain.Backends[i%2], MinGasPrice: uint64(rapid.SampledFrom([]int{0, 0, 1, 1000}).Draw(t, "minGasPrice")),
+				Upgrader: true} // every node has its own persistent upgrade manager (node-local state that survives restarts)
 			switch i {
 			case 0:
 				cfg.MemoryOnly = true
@@ -103,6 +104,10 @@ func TestC01Determinism(t *testing.T) {
 		}
 		cur = sim
 		defer sim.Close()
+		if rapid.IntRange(0, 3).Draw(t, "govTraffic") == 0 {
+			sim.Profile = "gov" // proposals (parameter changes, upgrades, cancellations) that actually pass
+			rec.Label("traffic:gov")
+		}
 		noisy := rapid.IntRange(0, nrep-1).Draw(t, "noisy")
 		nblocks := rapid.IntRange(8, ev.Pick(40, 150)).Draw(t, "nblocks")
 		pathsUsed := map[chain.Path]bool{}
